@@ -66,7 +66,9 @@ PROPS = {
         runs=[bp_sys("C06", 50, 1500)],
         rule="whole-processor runs with 1-5 concurrent callers whose requests are merged and split across batches, injected export failures "
              "(40% of exports), cancellations at random points; per shard the apportioning (waiter, count) of every send is compared with the model, "
-             "per call the responses delivered to its channel are replayed through the waitForItems model and compared with what the call returned",
+             "per call the responses delivered to its channel are replayed through the waitForItems model and compared with what the call returned; per shard that ended with the final flush "
+             "the responses every caller really received are compared (as multisets) with those Batch/EndToEnd.v derives from the shard's history and the real export outcomes (e2e_mismatch), "
+             "and must cover exactly the caller's items (e2e_propfail)",
         trusted_base=BP_TB + ["Go errors.Is / errors.Join / Unwrap semantics (the result is represented by the set of export errors it wraps)"],
         assumptions=["a call whose context was cancelled before it returned is only required to return a context error (promptness is not timed)"],
     ),
